@@ -141,8 +141,10 @@ class PybindWrapper:
         """
         # Redirect stdout - see pybind docs for why this is a good idea:
         # https://pybind11.readthedocs.io/en/stable/advanced/pycpp/utilities.html#capturing-standard-output-from-ostream
+        # (only the call itself: the docstring may mention `self->print` too)
         ret = ret.replace('self->print',
-                          'py::scoped_ostream_redirect output; self->print')
+                          'py::scoped_ostream_redirect output; self->print',
+                          1)
 
         # Make __repr__() call .print() internally
         ret += '''{prefix}.def("__repr__",
